@@ -91,7 +91,7 @@ def infer_offsets(orig_rows, part_rows_list):
     return offsets, None
 
 
-def check_transitions_split(tr, n, ctx, what, wit):
+def check_transitions_split(tr, n, ctx, what, wit, part_positions=None):
     states = np.asarray(tr.states)
     inner = np.asarray(tr.inner_states)
     T = len(states)
@@ -148,6 +148,10 @@ def check_transitions_split(tr, n, ctx, what, wit):
             break
     else:
         ctx.decided()
+    if part_positions is not None and n <= 6:
+        Pall, nfl = part_positions
+        parts_are_frame_ranges([p.trajectory for p in parts], Pall, ctx, what, wit, f'Transitions.split({n}).trajectory')
+        parts_are_frame_ranges([p.diff_trajectory for p in parts], Pall[:, :nfl], ctx, what, wit, f'Transitions.split({n}).diff_trajectory')
     ctx.count('transitions_splits', 1)
     ctx.count('events_mapped_back', len(orig))
     parts_with_events = sum(1 for r in prow if r)
@@ -212,10 +216,33 @@ def check_jumps_split(tr, j, n, tsplit, ctx, what, wit, default_settings):
     ctx.count('rates_checked')
 
 
+def parts_are_frame_ranges(parts, P, ctx, what, wit, label):
+    """Each part trajectory must be a contiguous frame range of the source, in order, non-overlapping."""
+    T = len(P)
+    end = 0
+    for i, part in enumerate(parts):
+        pp = np.asarray(copy.deepcopy(part).positions)
+        L = len(pp)
+        found = None
+        for s0 in range(end, T - L + 1):
+            if L and pp.shape[1:] == P.shape[1:] and float(geom.circ_diff(pp, P[s0 : s0 + L]).max()) <= 1e-9:
+                found = s0
+                break
+        if found is None:
+            ctx.check(False, f'{what}: {label}: trajectory of part {i} (length {L}) is not a contiguous frame range of the source starting at or after frame {end}', wit)
+            return False
+        end = found + L
+    ctx.decided()
+    return True
+
+
 def check_trajectory_split(traj, P, ctx, what, rng, wit):
     T = len(P)
     if T < 3:
         return
+    if rng.integers(2):
+        _ = traj.displacements  # history: the source was last used in displacement representation
+        what += ' [source in displacement representation]'
     n = int(rng.integers(1, min(T - 1, 12) + 1))
     eq = bool(rng.integers(2))
     parts = traj.split(n, equal_parts=eq)
@@ -283,7 +310,10 @@ def run_unit(unit, rng, ctx):
             ns = sorted({1, 2, int(rng.integers(2, 6)), int(rng.integers(5, 12)), int(rng.integers(2, min(n_events, T) + 1)), n_events})
         multi = 0
         for n in ns:
-            res = check_transitions_split(tr, n, ctx, what, wit)
+            if n == ns[0] or rng.integers(3) == 0:
+                # history: metric / displacement queries leave the trajectories in displacement representation
+                _ = tr.diff_trajectory.displacements if rng.integers(2) else tr.trajectory.distances_from_base_position()
+            res = check_transitions_split(tr, n, ctx, what, wit, part_positions=(P, sys_.n_floating))
             if res is None:
                 continue
             if n >= 2 and res[2] >= 2:
